@@ -186,3 +186,6 @@ func CanonArgs(args map[string]interface{}) string {
 	}
 	return strings.Join(parts, ",")
 }
+
+// AllEntityIDs lists every entity id, in creation order.
+func (d *Data) AllEntityIDs() []string { return append([]string(nil), d.Order...) }
